@@ -21,6 +21,7 @@ import (
 	"fmt"
 	"reflect"
 	"regexp"
+	"sort"
 	"time"
 	"unicode"
 	"unicode/utf8"
@@ -107,7 +108,8 @@ func mergeConfigDict(opts *options, to, from *Config) Error {
 		}()
 	}
 
-	for k, v := range dict {
+	for _, k := range from.fields.sortedKeys() {
+		v := dict[k]
 		ctx := context{
 			parent: cfgSub{to},
 			field:  k,
@@ -311,13 +313,23 @@ func normalizeMapInto(cfg *Config, opts *options, from reflect.Value) Error {
 		return raiseKeyInvalidTypeMerge(cfg, from.Type())
 	}
 
-	for _, k := range from.MapKeys() {
-		k = chaseValueInterfaces(k)
-		if k.Kind() != reflect.String {
+	// visit the keys in sorted order: if more than one entry is invalid, the
+	// error reported must not depend on the iteration order of the map
+	keys := from.MapKeys()
+	names := make([]string, 0, len(keys))
+	byName := make(map[string]reflect.Value, len(keys))
+	for _, k := range keys {
+		name := chaseValueInterfaces(k)
+		if name.Kind() != reflect.String {
 			return raiseKeyInvalidTypeMerge(cfg, from.Type())
 		}
+		names = append(names, name.String())
+		byName[name.String()] = k
+	}
+	sort.Strings(names)
 
-		err := normalizeSetField(cfg, opts, noTagOpts, k.String(), from.MapIndex(k))
+	for _, name := range names {
+		err := normalizeSetField(cfg, opts, noTagOpts, name, from.MapIndex(byName[name]))
 		if err != nil {
 			return err
 		}
@@ -390,7 +402,11 @@ func normalizeSetField(
 	old, err := p.GetValue(cfg, opts)
 	if err != nil {
 		if err.Reason() != ErrMissing {
-			return err
+			// The path runs through a setting that has already been defined as
+			// a primitive value ({"a": 1, "a.b": 2} with "a" visited first). If
+			// the keys are visited the other way round this is reported as a
+			// duplicate key; report the same error in both cases.
+			return raiseDuplicateKey(cfg, name)
 		}
 		old = nil
 	}
@@ -399,7 +415,15 @@ func normalizeSetField(
 	case !isNil(old) && isNil(val):
 		return nil
 	case isNil(old):
-		return p.SetValue(cfg, opts, val)
+		if err := p.SetValue(cfg, opts, val); err != nil {
+			if err.Reason() == ErrExpectedObject {
+				// the parent of the setting is already defined as a primitive
+				// value: the same conflict as above
+				return raiseDuplicateKey(cfg, name)
+			}
+			return err
+		}
+		return nil
 	case isSub(old) && isSub(val):
 		cfgOld, _ := old.toConfig(opts)
 		cfgVal, _ := val.toConfig(opts)
